@@ -713,8 +713,8 @@ theorem step_detect (s : St) (c : Cfg) (call : Call) (err : ErrKind) :
         split
         · exact ⟨Step.refl s, noRes_nil⟩
         · split
-          · have hr := step_refresh (modRef s call.slot (fun r => { r with deCalls := r.deCalls + 1 })) call.slot
-            exact ⟨(step_modRef s call.slot (fun r => { r with deCalls := r.deCalls + 1 })).trans hr.1, hr.2⟩
+          · have hr := step_refresh (modRef s call.slot (fun r => { r with deCalls := satInc r.deCalls })) call.slot
+            exact ⟨(step_modRef s call.slot (fun r => { r with deCalls := satInc r.deCalls })).trans hr.1, hr.2⟩
           · exact ⟨step_modRef _ _ _, noRes_nil⟩
 
 theorem step_completeCall (s : St) (call : Call) : Step s (completeCall s call) := by
